@@ -41,7 +41,7 @@ Proof.
   destruct (x mod 65536 <? 32768) eqn:L; [apply Z.ltb_lt in L|apply Z.ltb_ge in L]; lia.
 Qed.
 
-Lemma dims_small : forall g d, wf_gram g -> 0 <= dim_val d (nl g) (nr g) < 9223372036854775808.
+Lemma dims_small : forall g d, wf_gram g -> 1 <= dim_val d (nl g) (nr g) < 9223372036854775808.
 Proof. intros g d [H1 H2]. destruct d; cbn [dim_val]; lia. Qed.
 
 Lemma check_left_sound : forall g ty gs x, wf_gram g -> covers gs NumRight = true -> check_value ty gs g x = true -> left_id_ok g x = true.
